@@ -334,7 +334,7 @@ planned repair (`_ if length == 0 => ParseChunkData` in `parse_u32`): an empty c
 other.  Every theorem of `Proofs/EncodeMeta.lean` and `Props/C17.lean` is proved without unfolding
 this definition, i.e. for both values; set it to `true` when the repair lands (nothing else in the
 Lean sources has to change). -/
-def parseEmptyChunks : Bool := false
+def parseEmptyChunks : Bool := true
 
 /-- What `StreamingDecoder` does with one complete chunk that is not a data chunk: the body is
 collected in `raw_bytes` and handed to `parse_chunk` — unless it is empty and empty chunks are not
